@@ -250,23 +250,42 @@ impl<'a> Job<'a> {
         if units.is_empty() {
             return Ok(total);
         }
-        let w = workers.min(units.len()).max(1);
-        let mut lists: Vec<Vec<String>> = vec![Vec::new(); w];
+        // more lists than workers: lists are handed to free workers as they finish (load balancing)
+        let nlists = (workers * 6).min(units.len()).max(1);
+        let mut lists: Vec<Vec<String>> = vec![Vec::new(); nlists];
         for (i, u) in units.iter().enumerate() {
-            lists[(i + seed as usize) % w].push(u.clone());
+            lists[(i + seed as usize) % nlists].push(u.clone());
         }
+        let mut pending: std::collections::VecDeque<Vec<String>> = lists.into_iter().filter(|l| !l.is_empty()).collect();
         let mut running: Vec<Spawned> = Vec::new();
-        for l in lists {
-            if !l.is_empty() {
-                running.push(self.spawn(l, false, None, 0)?);
-            }
-        }
-        // wait for all; recover crashed ones afterwards (sequentially)
-        let mut pending: Vec<Vec<String>> = Vec::new();
         let mut crashed_units: Vec<String> = Vec::new();
         loop {
-            for mut sp in running.drain(..) {
-                let st = sp.child.wait().map_err(|e| EngineError(e.to_string()))?;
+            while running.len() < workers {
+                match pending.pop_front() {
+                    Some(l) => running.push(self.spawn(l, false, None, 0)?),
+                    None => break,
+                }
+            }
+            if running.is_empty() {
+                break;
+            }
+            // poll for a finished worker
+            let mut finished: Vec<(Spawned, std::process::ExitStatus)> = Vec::new();
+            let mut i = 0;
+            while i < running.len() {
+                match running[i].child.try_wait().map_err(|e| EngineError(e.to_string()))? {
+                    Some(st) => {
+                        let sp = running.swap_remove(i);
+                        finished.push((sp, st));
+                    }
+                    None => i += 1,
+                }
+            }
+            if finished.is_empty() {
+                std::thread::sleep(std::time::Duration::from_millis(2));
+                continue;
+            }
+            for (sp, st) in finished {
                 let (t, done) = Self::collect(&sp.dir);
                 total.merge(t);
                 if st.success() {
@@ -298,7 +317,7 @@ impl<'a> Job<'a> {
                     }
                 }
                 if !rest.is_empty() {
-                    pending.push(rest);
+                    pending.push_back(rest);
                 }
             }
             for u in crashed_units.drain(..) {
@@ -308,11 +327,12 @@ impl<'a> Job<'a> {
                 }
                 self.trace_unit(&u, &mut total)?;
             }
-            if total.capped || pending.is_empty() {
+            if total.capped {
+                for mut sp in running.drain(..) {
+                    let _ = sp.child.kill();
+                    let _ = sp.child.wait();
+                }
                 break;
-            }
-            for l in pending.drain(..) {
-                running.push(self.spawn(l, false, None, 0)?);
             }
         }
         Ok(total)
